@@ -109,7 +109,9 @@ def gen_device(rng: random.Random, xy=False, focus=None):
         dmms=dmms,
         max_sequence_duration=rng.choice([None, None, None, 3000, 700] if focus != "limits" else [None, 3000, 700, 400]),
         reusable=rng.random() < (0.5 if focus == "typestate" else 0.3),
-        slm=False,
+        # SLM mask support needs a DMM; sequences that configure a mask are run through
+        # the implementation and the property oracles only (the Coq model has no SLM mask)
+        slm=bool(dmms) and rng.random() < 0.25,
     )
 
 
@@ -241,13 +243,13 @@ def chan_spec_of(obj):
 
 
 OP_WEIGHTS = {
-    None: dict(add=45, delay=10, target=11, align=8, phase=9, eom=10, detmap=3, bad_disable=1.5, bad_addeom=1.5, mag=1),
-    "eom": dict(add=25, delay=8, target=6, align=6, phase=6, eom=40, detmap=1, bad_disable=2, bad_addeom=2, mag=0.5),
-    "conflict": dict(add=55, delay=10, target=10, align=10, phase=6, eom=5, detmap=3, bad_disable=0.5, bad_addeom=0.5, mag=0.5),
-    "local": dict(add=35, delay=8, target=35, align=5, phase=8, eom=4, detmap=1, bad_disable=0.5, bad_addeom=0.5, mag=0.5),
-    "phase": dict(add=45, delay=6, target=10, align=4, phase=28, eom=8, detmap=1, bad_disable=0.5, bad_addeom=0.5, mag=0.5),
-    "limits": dict(add=60, delay=12, target=6, align=8, phase=2, eom=6, detmap=6, bad_disable=0.5, bad_addeom=0.5, mag=0.5),
-    "typestate": dict(add=30, delay=8, target=10, align=6, phase=6, eom=14, detmap=8, bad_disable=6, bad_addeom=6, mag=5),
+    None: dict(add=45, delay=10, target=11, align=8, phase=9, eom=10, detmap=3, bad_disable=1.5, bad_addeom=1.5, mag=1, slm=2.5),
+    "eom": dict(add=25, delay=8, target=6, align=6, phase=6, eom=40, detmap=1, bad_disable=2, bad_addeom=2, mag=0.5, slm=2.5),
+    "conflict": dict(add=55, delay=10, target=10, align=10, phase=6, eom=5, detmap=3, bad_disable=0.5, bad_addeom=0.5, mag=0.5, slm=2.5),
+    "local": dict(add=35, delay=8, target=35, align=5, phase=8, eom=4, detmap=1, bad_disable=0.5, bad_addeom=0.5, mag=0.5, slm=2.5),
+    "phase": dict(add=45, delay=6, target=10, align=4, phase=28, eom=8, detmap=1, bad_disable=0.5, bad_addeom=0.5, mag=0.5, slm=2.5),
+    "limits": dict(add=60, delay=12, target=6, align=8, phase=2, eom=6, detmap=6, bad_disable=0.5, bad_addeom=0.5, mag=0.5, slm=2.5),
+    "typestate": dict(add=30, delay=8, target=10, align=6, phase=6, eom=14, detmap=8, bad_disable=6, bad_addeom=6, mag=5, slm=2.5),
 }
 
 
@@ -477,6 +479,15 @@ def gen_ops(rng: random.Random, case, n_ops: int, invalid_rate: float, query_rat
                 emit(dict(op="config_detmap", map=rng.randrange(len(case["maps"])), dmm_id=did))
             else:
                 emit(dict(op="delay", duration=gen_duration(rng, spec), channel=name, at_rest=True))
+        elif kind == "slm":
+            if dev.get("slm") and dev.get("dmms") and not any(o["op"] == "config_slm" for o in ops):
+                k = rng.randrange(len(dev["dmms"]))
+                qs = qsubset()
+                if rng.random() < 0.08:
+                    qs = qs + ["ghost"]
+                emit(dict(op="config_slm", qubits=qs, dmm_id=f"dmm_{k}"))
+            else:
+                emit(dict(op="add", pulse=pulse_for(obj), channel=name, protocol=rng.choice([0, 1, 2])))
         elif kind == "bad_disable":
             emit(dict(op="disable_eom", channel=name, correct=False))
         elif kind == "bad_addeom":
